@@ -1,9 +1,128 @@
+/-
+BDS 5,0 track and turn report: panic-freedom (C01), serialisation (C07) and physical ranges (C08)
+of `Bds50.read`, for every reader state (= every payload).
+Single-field facts are complete kernel enumerations of the field's code space; the two
+cross-field conversions (`rate` given the roll, `tas` given the ground speed) are proved by
+unfolding the checked i16/u16 operations (`value as i16 - 512`, `value * 2`,
+`gs as i16 - tas as i16`, `i16::abs`) and `omega`, using that an accepted ground speed is ≤ 600 kt.
+-/
 import Rs1090.Proofs.Decode.Wp
+import Rs1090.Proofs.Decode.Ser
+import Rs1090.Proofs.Decode.OkAnd
 import Rs1090.Model.Decode.Bds50
 namespace Rs1090.Model.Bds50
-open Rs1090 Rs1090.Model
+open Rs1090 Rs1090.Model Rs1090.Props.C13
 
-/-- STUB proof for the STUB reader (replaced together with the model) -/
-theorem read_noPanic : NoPanic read := by unfold read; exact noPanic_fail _
+/-! ### per-field facts -/
+
+/-- accepted roll: `|n·45/256| ≤ 50` (hence within ±90) -/
+theorem roll_spec : ∀ st sg v, sg < 2 ^ 1 → v < 2 ^ 9 →
+    (roll st sg v).okAnd (optAll fun n => decide (-50 * 256 ≤ n * 45) && decide (n * 45 ≤ 50 * 256)) = true := by
+  intro st sg v hsg
+  cases st <;> rcases bit_cases hsg with rfl | rfl <;> revert v <;> (refine enum 9 ?_; decide +kernel)
+
+/-- accepted track: `0 ≤ n/512 < 360`; `value as i16 - 1024` does not overflow -/
+theorem track_spec : ∀ st sg v, sg < 2 ^ 1 → v < 2 ^ 10 →
+    (track st sg v).okAnd (optAll fun n => decide (0 ≤ n) && decide (n < 360 * 512)) = true := by
+  intro st sg v hsg
+  cases st <;> rcases bit_cases hsg with rfl | rfl <;> revert v <;> (refine enum 10 ?_; decide +kernel)
+
+/-- accepted ground speed: at most 600 kt; `value * 2` does not overflow u16 -/
+theorem groundspeed_spec : ∀ st v, v < 2 ^ 10 →
+    (groundspeed st v).okAnd (optAll fun g => decide (g ≤ 600)) = true := by
+  intro st
+  cases st <;> (refine enum 10 ?_; decide +kernel)
+
+theorem signed_ok (half : Int) (sg v : Nat) (hh : 0 ≤ half ∧ half ≤ 32768) (hv : v < 2 ^ 15) :
+    ∃ x, signed half sg v = .ok x ∧ -32768 ≤ x ∧ x < 32768 := by
+  unfold signed
+  split
+  · refine ⟨(v : Int) - half, ?_, by omega, by omega⟩
+    unfold subS inS
+    rw [if_pos (by simp; omega)]
+  · exact ⟨v, rfl, by omega, by omega⟩
+
+theorem rate_spec (rollN : Option Int) : ∀ st sg v, sg < 2 ^ 1 → v < 2 ^ 9 →
+    (rate rollN st sg v).okAnd (fun _ => true) = true := by
+  intro st sg v hsg hv
+  obtain ⟨x, hx, _⟩ := signed_ok 512 sg v (by omega) (by omega)
+  unfold rate
+  split
+  · split <;> rfl
+  · split
+    · rfl
+    · rw [hx]
+      show (Outcome.bind (.ok x) _).okAnd _ = true
+      rw [Outcome.bind_ok]
+      cases rollN with
+      | none => rfl
+      | some n => simp only []; split <;> rfl
+
+theorem tas_spec (gs : Option Nat) (hgs : optAll (fun g => decide (g ≤ 600)) gs = true) : ∀ st v, v < 2 ^ 10 →
+    (tas gs st v).okAnd (fun _ => true) = true := by
+  intro st v hv
+  unfold tas
+  split
+  · split <;> rfl
+  · rw [mulU_ok (by omega)]
+    show (Outcome.bind (.ok _) _).okAnd _ = true
+    rw [Outcome.bind_ok]
+    cases gs with
+    | none => rfl
+    | some g =>
+      simp only [optAll, decide_eq_true_eq] at hgs
+      simp only []
+      have h1 : subS 16 (g : Int) ((v * 2 : Nat) : Int) = .ok ((g : Int) - ((v * 2 : Nat) : Int)) := by
+        unfold subS inS; rw [if_pos (by simp; omega)]
+      rw [h1]
+      show (Outcome.bind (.ok _) _).okAnd _ = true
+      rw [Outcome.bind_ok]
+      have h2 : absS16 ((g : Int) - ((v * 2 : Nat) : Int)) = .ok (Int.ofNat ((g : Int) - ((v * 2 : Nat) : Int)).natAbs) := by
+        unfold absS16; rw [if_neg (by simp; omega)]
+      rw [h2]
+      show (Outcome.bind (.ok _) _).okAnd _ = true
+      rw [Outcome.bind_ok]
+      split <;> rfl
+
+/-! ### the reader -/
+
+theorem read_good (s : Rd) : wp read (fun r _ => SerGood [] r ∧ RangeGood r) s := by
+  unfold read
+  wp_run
+  apply wp_lift_okAnd (roll_spec _ _ _ (by assumption) (by assumption)); intro rollN hroll
+  wp_run
+  apply wp_lift_okAnd (track_spec _ _ _ (by assumption) (by assumption)); intro trk htrk
+  wp_run
+  apply wp_lift_okAnd (groundspeed_spec _ _ (by assumption)); intro gs hgs
+  wp_run
+  apply wp_lift_okAnd (rate_spec rollN _ _ _ (by assumption) (by assumption)); intro rt _
+  wp_run
+  apply wp_lift_okAnd (tas_spec gs hgs _ _ (by assumption)); intro ta _
+  wp_run
+  constructor
+  · apply serGood_of
+    · keys_decide
+    · keys_decide
+    · fields_cases
+  · apply rangeGood_of
+    range_cases
+    · exact holds_getD_map _ _ _ _ hroll (fun n hn => by
+        simp only [Bool.and_eq_true, decide_eq_true_eq] at hn
+        exact holds_range_jrat _ _ _ _ _ (by decide) (by omega) (by simp; omega))
+    · exact holds_getD_map _ _ _ _ htrk (fun n hn => by
+        simp only [Bool.and_eq_true, decide_eq_true_eq] at hn
+        exact holds_range_jrat _ _ _ _ _ (by decide) (by omega) (by simp; omega))
+    · exact holds_nonneg_getD_map_jnat _
+    · exact inRange_getD_map _ _ (fun _ => rfl)
+    · exact holds_nonneg_getD_map_jnat _
+
+theorem read_noPanic : NoPanic read :=
+  fun s => wp_mono (read_good s) (fun _ _ _ => trivial)
+
+theorem read_serGood (s : Rd) : wp read (fun r _ => SerGood [] r) s :=
+  wp_mono (read_good s) (fun _ _ h => h.1)
+
+theorem read_rangeGood (s : Rd) : wp read (fun r _ => RangeGood r) s :=
+  wp_mono (read_good s) (fun _ _ h => h.2)
 
 end Rs1090.Model.Bds50
